@@ -353,7 +353,9 @@ class Mean(base.CallableMetric):
     return self._input_shape
 
   def merge(self, other: Mean):
-    if np.all(np.isnan(other.mean)):
+    # "Nothing to merge" is a matter of the count: a NaN mean also belongs to
+    # a batch that holds both +inf and -inf.
+    if not np.any(other.count):
       return
     self._input_shape = self._input_shape or other.input_shape
     if other.input_shape and other.input_shape[1:] != self._input_shape[1:]:
@@ -361,10 +363,17 @@ class Mean(base.CallableMetric):
           f'Incompatible shape {other.input_shape} while the'
           f' other have shape {self._input_shape}.'
       )
-    self._count += other.count
-    mean_diff = math_utils.nanadd(other.mean, -self._mean)
-    update = mean_diff * math_utils.safe_divide(other.count, self._count)
-    self._mean = math_utils.nanadd(self._mean, update)
+    prev_count = self._count
+    self._count = self._count + other.count
+    # Weighted form: stays +-inf / NaN exactly when the mean of the data is.
+    other_ratio = math_utils.safe_divide(other.count, self._count)
+    prev_mean = math_utils.where(prev_count > 0, self._mean, 0)
+    other_mean = math_utils.where(other.count > 0, other.mean, 0)
+    self._mean = math_utils.where(
+        self._count > 0,
+        (1 - other_ratio) * prev_mean + other_ratio * other_mean,
+        np.nan,
+    )
 
   def result(self) -> Self:
     return self.mean
@@ -399,28 +408,32 @@ class MeanAndVariance(Mean):
     return np.sqrt(self._var)
 
   def merge(self, other: MeanAndVariance):
-    if np.all(np.isnan(other.var)):
+    # Emptiness is decided by the count: the variance of a batch that holds an
+    # inf is NaN although the batch has values.
+    if not np.any(other.count):
       return
     prev_mean, prev_count = np.copy(self._mean), np.copy(self._count)
     super().merge(other)
-    if np.all(np.isnan(self._var)):
+    if not np.any(prev_count):
       self._var = other.var
       return
     # Reference
     # (https://math.stackexchange.com/questions/2971315/how-do-i-combine-standard-deviations-of-two-groups)
     prev_count_ratio = math_utils.safe_divide(prev_count, self._count)
     other_count_ratio = math_utils.safe_divide(other.count, self._count)
-    delta_mean = math_utils.nanadd(self._mean, -prev_mean)
-    mean_diff = math_utils.nanadd(other.mean, -self._mean)
+    delta_mean = math_utils.where(prev_count > 0, self._mean - prev_mean, 0)
+    mean_diff = math_utils.where(other.count > 0, other.mean - self._mean, 0)
     # A column without any valid value on one side has a NaN variance there,
     # it must not poison the merged variance (its weight is zero).
     prev_var = math_utils.where(prev_count > 0, self._var, 0)
     other_var = math_utils.where(other.count > 0, other.var, 0)
-    self._var = (
+    self._var = math_utils.where(
+        self._count > 0,
         prev_count_ratio * prev_var
         + other_count_ratio * other_var
         + prev_count_ratio * delta_mean**2
-        + other_count_ratio * mean_diff**2
+        + other_count_ratio * mean_diff**2,
+        np.nan,
     )
 
   def result(self) -> types.NumbersT:
